@@ -224,8 +224,10 @@ def _a_shard(sh: Dict[str, Any]) -> Dict[str, Any]:
     nthreads, maxd = sh["threads"], sh["maxdepth"]
 
     def harness(e: Engine) -> None:
-        depths = [e.int(f"depth{i}", 1, maxd) for i in range(nthreads)]
-        nm = [[e.choice(f"mgrs{i}_{k}", 3) if (i == 0 or k == 0) else 0 for k in range(maxd)] for i in range(nthreads)]
+        # the observed thread: any depth, 0-2 managers on each of its three outermost levels; a second parked thread
+        # (same function, other instance) of depth 1-2 with one manager
+        depths = [e.int(f"depth{i}", 1, maxd if i == 0 else 2) for i in range(nthreads)]
+        nm = [[e.choice(f"mgrs{i}_{k}", 3) if (i == 0 and k < 3) else (1 if k == 0 else 0) for k in range(maxd)] for i in range(nthreads)]
         wheres = [WHERES[e.choice(f"where{i}", 3)] if i == 0 else "body" for i in range(nthreads)]
         target = 0
         sl = e.choice("slice_level", maxd + 1)
@@ -314,6 +316,20 @@ class World:
         self.null_index = (preset["null_slot"] if "null_slot" in preset else e.choice("null_slot", 2)) - 1     # -1: none, 0: the first slot is NULL
         self.events: List[Tuple[Any, ...]] = []
         self.last_site: Optional[int] = None
+        # sharding of the schedule space by the event before which the FIRST move happens
+        self.first_move: Optional[int] = preset.get("first_move")
+        self.first_move_ge: Optional[int] = preset.get("first_move_ge")
+
+    def _take_move(self, idx: int) -> bool:
+        if self.epoch == 0 and self.first_move is not None:
+            if idx > self.first_move:
+                raise Infeasible()           # the first move of this schedule is elsewhere: another shard's path
+            if idx < self.first_move:
+                return False
+            return True
+        if self.epoch == 0 and self.first_move_ge is not None and idx < self.first_move_ge:
+            return False
+        return self.e.flag(f"move_before_event{idx}")
 
     def _pos(self, k: int) -> Any:
         return self.e.int(f"instr{k}", 0, self.maxoff // 2) * 2       # f_lasti is an instruction offset: even
@@ -329,7 +345,7 @@ class World:
     def _event(self, site: Optional[int]) -> None:
         ok = self.moves > 0 and may_move(self.last_site, site)
         self.last_site = site
-        if ok and self.e.flag(f"move_before_event{len(self.events)}"):
+        if ok and self._take_move(len(self.events)):
             self.moves -= 1
             self.epoch += 1
             new = self._pos(self.epoch)
@@ -782,7 +798,8 @@ def run(rep: Any, tier: str, seed: int) -> None:
     rep.functions = FUNCTIONS
     maxd = 4 if tier == "quick" else 7
     moves = "plain<=2, with1<=1, with 0" if tier == "quick" else "plain<=3, with1<=2, with<=1"
-    rep.bounds = {"A": f"1-2 parked threads, depth 1..{maxd} (z3 Int compared by the recursion), 0-2 managers per level, parked in a body / inside __enter__ / inside __exit__, "
+    rep.bounds = {"A": f"the observed thread at depth 1..{maxd} (z3 Int compared by the recursion) with 0-2 managers on each of its three outermost levels, parked in a body / inside __enter__ / inside __exit__; "
+                       f"optionally a second parked thread running the same functions (depth 1-2, observed depth then 1..{max(2, maxd - 2)}); "
                        "StackSlice(outer=any level of the other thread)",
                   "B": f"targets {list(TARGETS)}; position a z3 Int over every offset of the code object, stacktop a z3 Int from -1 to nlocalsplus+stacksize+1 (per epoch), owner in 3 kinds, "
                        f"the first slot NULL or not; the world moves at most ({moves}) times - each move picks a new position, a new stacktop (-1 or depth 0..2; any value -1..frame end+1 when it never moves) and possibly 'the frame finished' -, before any environment read not separated from the previous one by atomic bytecode only; "
@@ -810,7 +827,10 @@ def run(rep: Any, tier: str, seed: int) -> None:
     for t, top in plan.items():
         for mv in range(0, top + 1):
             if mv >= 2 and tier == "thorough":
-                jobs += [("_b_shard", {"target": t, "moves": mv, "preset": pr}) for pr in presets]
+                # split by the initial owner, the NULL slot and the event before which the first move happens
+                FM = 12
+                jobs += [("_b_shard", {"target": t, "moves": mv, "preset": dict(pr, first_move=j)}) for pr in presets for j in range(FM)]
+                jobs += [("_b_shard", {"target": t, "moves": mv, "preset": dict(pr, first_move_ge=FM)}) for pr in presets]
             else:
                 jobs.append(("_b_shard", {"target": t, "moves": mv}))
     jobs += [("_b_shard", {"target": t, "moves": 0, "storm": True}) for t in TARGETS]
@@ -826,7 +846,8 @@ def replay(c: Dict[str, Any]) -> Dict[str, Any]:
         why = parked_case(c["depths"], c["nmgrs"], c["wheres"], 0, c["slice_level"])
         return {"status": "reproduces" if why else "not-reproduced", "detail": why}
     if c["leg"] == "B":
-        w, out = run_b(Script(c["model"]), c["target"], c["moves"], c.get("storm", False))
+        pre = {k: c["model"][k] for k in ("owner0", "null_slot", "first_move", "first_move_ge") if k in c["model"]}
+        w, out = run_b(Script(c["model"]), c["target"], c["moves"], c.get("storm", False), pre or None)
         why = judge(w, TARGETS[c["target"]].__code__, out)
         return {"status": "reproduces" if why else "not-reproduced", "detail": {"why": why, "events": [list(ev) for ev in w.events][:60]}}
     why, info = unwrap_thread_case(Script(c["model"]))
